@@ -4,7 +4,7 @@ import vlib, grammar, gens, gramlib, writable
 from checklib import Scenario
 
 RULE = ("objects built by random setter histories (any interleaving of group-less and sectioned keys, re-opened sections, "
-        "overwritten keys; typed values) or parsed from conventional files and then modified, for delimiter tags =, :, space "
+        "overwritten keys; typed values) or parsed from conventional files (general ones, and dense ones where value-less keys stand directly below other entries) and then modified, for delimiter tags =, :, space "
         "and comment tags #, ;; each is written with econf_writeFile and read back with its own tags; for objects the Coq "
         "predicate `writable` accepts (decided by the extracted model), every section must hold the same keys in order with "
         "the same values, and single-line entries keep their comments; non-writable objects only check model = implementation; "
@@ -38,8 +38,14 @@ def gen(rng, tier):
     pre = []
     for _ in range(n):
         d = rng.choice([61, 58, 32]); c = rng.choice([35, 59])
-        if rng.random() < 0.6:
+        r = rng.random()
+        if r < 0.5:
             cmds = writable.history(rng, 0, d, c)
+        elif r < 0.7:
+            cmds = [gens.parse_cmd(0, b"/w/f.conf", writable.compact_file(rng, d, c), bytes([d]), bytes([c]))]
+            if rng.random() < 0.3:
+                cmds.append("set 0 string %s %s %s 0" % (vlib.enc(rng.choice([None, b"A", b"main"])), vlib.enc(b"added"),
+                                                          vlib.enc(writable.sval(rng, d, c))))
         else:
             ls, dl, cm = writable.from_file(rng, 0, d, c)
             e = gramlib.expected_of([(dl, cm, ls)])[0]
